@@ -68,6 +68,9 @@ class RVar(ModelObject):
             a, b = idx.start, idx.stop
             cx.oblige(f"reading {self.name}: slice within the instance dimension", z3.And(V.to_z3(a) >= 0, V.to_z3(a) <= V.to_z3(b), V.to_z3(b) <= total), kind="index")
             return Arr((V.s_binop("-", b, a),), lambda k: V.app(f, V.s_binop("+", a, k)), kind)
+        if not isinstance(idx, (tuple, slice)) and V.kind_of(idx) == "int":
+            cx.oblige(f"reading {self.name}: index within the instance dimension", z3.And(V.to_z3(idx) >= 0, V.to_z3(idx) < total), kind="index")
+            return V.app(f, idx)
         raise Unsupported("instance variable index form")
 
 
